@@ -112,7 +112,7 @@ def run_shard(spec, rec):
         impl = 'c' if i % 2 == 0 else 'py'
         if i % 40 == 0:
             uni = fam.key_universe(rng, n=rng.choice([8, 14, 22]))
-            if (i // 40) % 6 == 4:
+            if (i // 40) % (6 if spec['tier'] == 'quick' else 20) == 4:
                 nb = rng.choice([300, 700, 1300])
                 if fam.kc == 'f':
                     uni = [bytes([j // 256, j % 256]) for j in range(nb)]
